@@ -47,7 +47,8 @@ pub struct Outcome {
 pub struct ExhOutcome {
     pub evaluations: u64,
     pub nontrivial: u64,
-    pub failures: Vec<(Failure, Vec<String>)>,
+    /// (failure, readable trace, bytes that make the property's run function repeat the case)
+    pub failures: Vec<(Failure, Vec<String>, Vec<u8>)>,
     pub samples: Vec<Vec<String>>,
     pub classes: Vec<(&'static str, u64)>,
     pub space: String,
@@ -347,7 +348,7 @@ pub fn worker(spec: &PropSpec, tier: Tier, seed: u64, shard: usize, nshards: usi
             s.samples.push(smp);
         }
         exh_json = json!({"evaluations": eo.evaluations, "nontrivial": eo.nontrivial, "space": eo.space});
-        for (i, (f, trace)) in eo.failures.iter().enumerate().take(3) {
+        for (i, (f, trace, bytes)) in eo.failures.iter().enumerate().take(3) {
             if f.prop != spec.id {
                 continue;
             }
@@ -357,11 +358,7 @@ pub fn worker(spec: &PropSpec, tier: Tier, seed: u64, shard: usize, nshards: usi
                 continue;
             }
             let path = out.join("failures").join(format!("{}-{}-{}-exh{}-{}.case", spec.id, seed, build, shard, i));
-            let mut txt = format!("property: {}\nkey: {key}\ntier: {}\nbuild: {build}\nkind: exhaustive\nmessage: {}\ntrace:\n", spec.id, tier.name(), f.msg);
-            for l in trace {
-                txt.push_str(&format!("  {l}\n"));
-            }
-            let _ = std::fs::write(&path, txt);
+            write_case_file(&path, spec.id, &key, tier, bytes, &f.msg, trace, build);
             failures_json.push(json!({"key": key, "msg": f.msg, "replay": path.to_string_lossy(), "kind": "exhaustive"}));
         }
         // distinct non-trivial enumerated cases are distinct by construction
